@@ -3,7 +3,7 @@ from .. import protocol, sendfeed, pipeline
 
 ID = 'C04'
 PROP_FILES = ['C04', 'C04Potential']
-MODULES = ['OFModel.Zmq.Sender', 'OFModel.Gen.Facts']
+MODULES = ['OFModel.Zmq.Sender', 'OFModel.Zmq.Receiver', 'OFModel.Gen.Facts']
 RULE = ('adversarial request feeds of a real non-balanced ZMQSender with 1-4 clients (sync and ephemeral), duplicated / stale / ahead requests, clock steps up to and '
         'beyond the connection time-out; for every synchronised client the feed is cut after its last request (= the stall point) and the publishes made while '
         'it is still tracked are counted against the potential [requested] + queued requests measured on the real object.  non-trivial = at least one publish')
@@ -15,4 +15,5 @@ TRUSTED = ['transcription OFModel/Zmq/Sender.lean, compared call-by-call with th
 def run(ctx):
     n = 10000 if ctx.thorough else (4000 if ctx.escalate else 1000)
     protocol.send_campaign(ctx, 'C04', n, ['sync', 'sync', 'adv'], extra_oracle=sendfeed.stall_oracle)
+    protocol.recv_campaign(ctx, 'C04', n, ['wf', 'adv'])        # the consumer's half of the flow control: what its requests say
     if not ctx.replay: pipeline.campaign_stall(ctx, 300 if ctx.thorough else 30)
